@@ -12,6 +12,7 @@ import (
 	"errors"
 	"fmt"
 	"net"
+	"os"
 	"runtime"
 	"strconv"
 	"strings"
@@ -359,8 +360,17 @@ func runSyncCase(r *rng, stats map[string]int) (string, map[string]any, bool) {
 		nRequesters = r.intn(3)
 		issued      = map[string]bool{}
 	)
+	// calls that have not returned yet, per goroutine: when the run does not end, these are the
+	// calls that hang (reported with their own kind)
+	inflight := map[int]int{}
+	enter := func(kind int) {
+		mu.Lock()
+		inflight[gid()] = kind
+		mu.Unlock()
+	}
 	note := func(kind int, err error, started bool) {
 		mu.Lock()
+		delete(inflight, gid())
 		calls = append(calls, apiObs{gid(), kind, classOf(err), started})
 		mu.Unlock()
 	}
@@ -372,6 +382,7 @@ func runSyncCase(r *rng, stats map[string]int) (string, map[string]any, bool) {
 		defer wg.Done()
 		for i := 0; i < 400; i++ {
 			after := isClosed()
+			enter(0)
 			_, _, err := client.ReadSlices()
 			var big *mqtt.BigMessage
 			if errors.As(err, &big) {
@@ -409,6 +420,7 @@ func runSyncCase(r *rng, stats map[string]int) (string, map[string]any, bool) {
 				mu.Lock()
 				issued[topic+"\x00"+string(payload)] = true
 				mu.Unlock()
+				enter(1)
 				note(1, client.Publish(quit, payload, topic), after)
 				if !tm.Stop() {
 					<-quit
@@ -425,6 +437,7 @@ func runSyncCase(r *rng, stats map[string]int) (string, map[string]any, bool) {
 				time.Sleep(time.Duration(wr.intn(60)) * time.Millisecond)
 				after := isClosed()
 				var err error
+				enter(2)
 				if wr.chance(1, 2) {
 					_, err = client.PublishAtLeastOnce(wr.bytes(wr.intn(5)), "t")
 				} else {
@@ -453,10 +466,13 @@ func runSyncCase(r *rng, stats map[string]int) (string, map[string]any, bool) {
 				}
 				switch wr.intn(3) {
 				case 0:
+					enter(5)
 					note(5, client.Ping(quit), after)
 				case 1:
+					enter(6)
 					note(6, client.Subscribe(quit, "a/b", "c"), after)
 				default:
+					enter(7)
 					note(7, client.Unsubscribe(quit, "a/b"), after)
 				}
 				if tm != nil && !tm.Stop() {
@@ -473,18 +489,21 @@ func runSyncCase(r *rng, stats map[string]int) (string, map[string]any, bool) {
 			time.Sleep(time.Duration(kr.intn(400)) * time.Millisecond)
 			after := isClosed()
 			if kr.chance(2, 3) {
+				enter(3)
 				note(3, client.Close(), after)
 			} else {
 				quit := make(chan struct{})
 				if kr.chance(1, 3) {
 					close(quit)
 				}
+				enter(4)
 				note(4, client.Disconnect(quit), after)
 			}
 			mu.Lock()
 			closeDone = true
 			mu.Unlock()
 			if kr.chance(1, 2) {
+				enter(3)
 				note(3, client.Close(), true)
 			}
 		}()
@@ -500,7 +519,13 @@ func runSyncCase(r *rng, stats map[string]int) (string, map[string]any, bool) {
 	}
 	if hung {
 		mu.Lock()
-		calls = append(calls, apiObs{0, 3, classOf(errHung), false})
+		if len(inflight) == 0 {
+			calls = append(calls, apiObs{0, 3, classOf(errHung), false}) // stuck outside an API call
+		}
+		for g, kind := range inflight {
+			calls = append(calls, apiObs{g, kind, classOf(errHung), false})
+			stats[fmt.Sprintf("hung:kind%d", kind)]++
+		}
 		mu.Unlock()
 		stats["hung"]++
 	}
@@ -1010,12 +1035,26 @@ func runSync(name, runFn string, withF7 bool, tier string, seed uint64, out stri
 	if err := cs.write(out, 5); err != nil {
 		return err
 	}
+	only, repeat := -1, 1 // debugging aid: VERIF_SYNC_ONLY=<index>[x<repeats>] runs one of the random runs
+	if v := os.Getenv("VERIF_SYNC_ONLY"); v != "" {
+		fmt.Sscanf(v, "%dx%d", &only, &repeat)
+	}
 	for i := 0; i < n; i++ {
-		hr := newRng(r.u64())
+		seed := r.u64()
+		if only >= 0 && i != only {
+			continue
+		}
+		hr := newRng(seed)
 		var term string
 		var desc map[string]any
 		var ok bool
-		bubble(func() { term, desc, ok = runSyncCase(hr, stats) })
+		for k := 0; k < repeat; k++ {
+			hr = newRng(seed)
+			bubble(func() { term, desc, ok = runSyncCase(hr, stats) })
+			if only >= 0 {
+				fmt.Fprintf(os.Stderr, "run %d: hung=%d ping=%d sub=%d unsub=%d read=%d pub=%d pubp=%d close=%d disc=%d\n", k, stats["hung"], stats["hung:kind5"], stats["hung:kind6"], stats["hung:kind7"], stats["hung:kind0"], stats["hung:kind1"], stats["hung:kind2"], stats["hung:kind3"], stats["hung:kind4"])
+			}
+		}
 		if !ok {
 			continue
 		}
